@@ -173,3 +173,19 @@ def best_subset_total(segs_in_key_order, score_of, join):
         if tot > best:
             best = tot
     return best
+
+
+def best_chain_dp(segs_in_key_order, score_of, join):
+    """Independent O(n^2) model of the statement for larger n: best[i] = score[i] + max(0, max_{j<i} best[j] + join(j,i));
+    cross-validated against best_subset_total on every small case of the same run."""
+    n = len(segs_in_key_order)
+    sc = [score_of(s) for s in segs_in_key_order]
+    best = [0.0] * n
+    for i in range(n):
+        b = 0.0
+        for j in range(i):
+            v = best[j] + join(segs_in_key_order[j], segs_in_key_order[i])
+            if v > b:
+                b = v
+        best[i] = b + sc[i]
+    return max(best) if best else -math.inf
